@@ -328,6 +328,18 @@ fn wild_draw(w: i32, h: i32) -> BoxedStrategy<Op> {
     prop_oneof![
         6 => (wild_path(ext), wild_src(ext), wild_opts()).prop_map(|(p, s, o)| Op::Fill(p, s, o)),
         4 => (wild_path(ext), wild_src(ext), wild_opts()).prop_flat_map(|(p, s, o)| { let l = path_len(&p) as f32; (Just(p), Just(s), wild_style(l), Just(o)) }).prop_map(|(p, s, st, o)| Op::Stroke(p, s, st, o)),
+        // hairpins: two segments that reverse direction to within 1e-5..1e-3 rad of 180 degrees (not exactly), stroked
+        // wide with a miter join: the dot product of the two unit normals rounds to either side of -1 / +1, the
+        // miter-or-bevel decision divides by what is left
+        2 => (0.0f32..200.0, 0.0f32..200.0, 0.0f32..360.0, 40.0f32..160.0, prop_oneof![1.0e-5f32..1.0e-3, -1.0e-3f32..-1.0e-5], 0.3f32..1.0, 20.0f32..60.0, prop_oneof![3 => Just(10.0f32), 1 => Just(4.0f32), 1 => Just(100.0f32)], wild_src(ext), wild_opts()).prop_map(|(ax, ay, dir, len, ang, back, width, miter, s, o)| {
+            let r = (dir as f64).to_radians();
+            let (bx, by) = (ax as f64 + len as f64 * r.cos(), ay as f64 + len as f64 * r.sin());
+            let r2 = r + std::f64::consts::PI + ang as f64;
+            let l2 = (len * back) as f64;
+            let (cx, cy) = (bx + l2 * r2.cos(), by + l2 * r2.sin());
+            let path = PathSpec { ops: vec![POp::M(ax, ay), POp::L(bx as f32, by as f32), POp::L(cx as f32, cy as f32)], evenodd: false };
+            Op::Stroke(path, s, StyleSpec { width: Fl(width), cap: 0, join: 0, miter: Fl(miter), dash: vec![], offset: Fl(0.0) }, o)
+        }),
         3 => (g(), g(), prop_oneof![g(), Just(0.0f32), (-20i32..60).prop_map(|v| v as f32)], prop_oneof![g(), Just(0.0f32), (-20i32..60).prop_map(|v| v as f32)], wild_src(ext), wild_opts()).prop_map(|(x, y, rw, rh, s, o)| Op::FillRect(x, y, rw.clamp(-600.0, 600.0), rh.clamp(-600.0, 600.0), s, o)),
         1 => px_premul().prop_map(Op::Clear),
         3 => (wild_src(ext), wild_i32(), wild_i32(), mask_spec(8, 8)).prop_map(|(s, x, y, m)| Op::Mask(s, x.clamp(-5000, 5000), y.clamp(-5000, 5000), m)),
